@@ -10,6 +10,8 @@ CONSTANTS
   MaxOps = 8
   Variant = "explicit"
   Steps <- MCSteps
+  Algo = "lstsq"
+  Garbage = 1000
   Record = TRUE
   Temps = {200, 1000}
 INVARIANT EmitBehaviours
